@@ -262,6 +262,10 @@ def gen_cases(tier, rnd):
             stream = "shape-map-labels"
         else:
             runs = [(ts, cfg)]
+        if i % 5 == 2 and not pipemap.is_map(cfg) and "_doc" not in cfg and len(runs) == 1 and len(runs[0]) == 2:
+            # the same document through output_file, at a path that already holds a schema (pipe.impl_other writes
+            # stale content first): what the file contains is judged like the string
+            runs.append((ts, cfg, "shexc_file"))
         if i % 2 == 0 and not pipemap.is_map(cfg) and "_doc" not in cfg:
             sc = dict(cfg)
             sc["disable_or_statements"] = True      # SHACL is specified for the default only
@@ -396,7 +400,7 @@ class Spec(pipeprops.PropSpec):
             kind = rn[2] if len(rn) > 2 else "shexc"
             if res[0] != "ok":
                 continue                      # crashes are C04's subject
-            if kind in ("shexc", "shexc_only", "shexc_map", "shexc_ttl"):
+            if kind in ("shexc", "shexc_only", "shexc_map", "shexc_ttl", "shexc_file"):
                 n += 1
                 bad = recognise(res[1])
                 if bad is not None and kind == "shexc" and not pipemap.is_map(cfg) and in_proved_domain(ts, cfg):
